@@ -180,7 +180,9 @@ pub fn run_c03(shard: &Shard) -> i32 {
         if shard.idx % 4 != 3 && !stress_only {
             let long = rng.chance(1, 6);
             let spec = tiny_spec(rng, long);
-            let plan = random_plan(rng, shard.quick());
+            let mut plan = random_plan(rng, shard.quick());
+            // the thread count may also be set through the builder method after construction
+            if rng.chance(1, 4) { plan.n1 = Some(1 + rng.usize(4)); }
             let seed = rng.next();
             with_family!(spec.family, sched_case, &spec, &plan, seed, PROP);
         } else {
